@@ -490,8 +490,31 @@ struct Space {
     chunk: u64,
 }
 
+/// Every single-token replacement of a seed by each token of a small "wrong kind" alphabet.
+fn replacements_of(t: &[u8]) -> Vec<Vec<u8>> {
+    let toks = token_spans(t);
+    let alphabet: [&[u8]; 6] = [b"()", b"1", b"\"s\"", b"X", b"(a b)", b"0x1"];
+    let mut out = vec![];
+    for (s, e) in toks.iter() {
+        if t[*s] == b'(' || t[*s] == b')' {
+            continue;
+        }
+        for r in alphabet {
+            if &t[*s..*e] == r {
+                continue;
+            }
+            let mut m = t[..*s].to_vec();
+            m.extend_from_slice(r);
+            m.extend_from_slice(&t[*e..]);
+            out.push(m);
+        }
+    }
+    out
+}
+
 struct Plan {
     thorough: bool,
+    seed_replacements: Vec<Vec<u8>>,
     seed_mutants: Vec<Vec<u8>>,
     shipped_mutants: Vec<Vec<u8>>,
     include_variants: Vec<Vec<u8>>,
@@ -500,8 +523,10 @@ struct Plan {
 impl Plan {
     fn new(thorough: bool) -> Plan {
         let mut seed_mutants = vec![];
+        let mut seed_replacements = vec![];
         for (_, s) in seeds() {
             seed_mutants.extend(mutants_of(s.as_bytes(), 1));
+            seed_replacements.extend(replacements_of(s.as_bytes()));
         }
         let mut shipped_mutants = vec![];
         for (_, s) in shipped_seeds(if thorough { 6000 } else { 600 }, if thorough { 120 } else { 8 }) {
@@ -514,7 +539,7 @@ impl Plan {
         for m in mutants_of(b"(\n  (defconstant CREATE 51)\n  (defun-inline dbl (X) (* 2 X))\n  (defmacro twice (X) (qq (c (unquote X) (unquote X))))\n)", 1) {
             include_variants.push(m);
         }
-        Plan { thorough, seed_mutants, shipped_mutants, include_variants }
+        Plan { thorough, seed_replacements, seed_mutants, shipped_mutants, include_variants }
     }
     fn spaces(&self) -> Vec<Space> {
         let t = self.thorough;
@@ -522,6 +547,7 @@ impl Plan {
             Space { name: "soup-all-entries".into(), bound: format!("every sequence of 0..{} tokens over the 24-token alphabet, all 13 text entry points", if t { 4 } else { 3 }), n: strings_upto_count(SOUP.len(), if t { 4 } else { 3 }), chunk: 200 },
             Space { name: "soup-light-entries".into(), bound: format!("every sequence of exactly {} tokens, entry points assemble/cldb/repl/preprocess", if t { 5 } else { 4 }), n: (SOUP.len() as u64).pow(if t { 5 } else { 4 }), chunk: 3000 },
             Space { name: "seed-mutations".into(), bound: "13 hand-written seed programs (one per construct family and dialect): the seed, every single-token deletion, duplication and adjacent swap, every truncation at every byte offset; all 13 text entry points".into(), n: self.seed_mutants.len() as u64, chunk: 25 },
+            Space { name: "seed-replacements".into(), bound: "the same 13 seeds: every non-parenthesis token replaced by each of () 1 \"s\" X (a b) 0x1 (a form or value of the wrong kind in every position); library compile entry (dialect from the sigil), dependency listing, preprocessing; thorough: all text entry points".into(), n: self.seed_replacements.len() as u64, chunk: 60 },
             Space { name: "shipped-mutations".into(), bound: format!("sources under resources/tests (up to {} bytes, first {} by path): same token mutations, truncation at every {} byte; all entry points", if t { 6000 } else { 600 }, if t { 120 } else { 8 }, if t { "1st" } else { "7th" }), n: self.shipped_mutants.len() as u64, chunk: 25 },
             Space { name: "raw-bytes".into(), bound: format!("every byte string of length 0..2 and every string of length 3{} over the 31 byte-class representatives; deserialise, hex reader, assemble for all; classic compile and repl for the shortest strings (thorough: for all up to 2 bytes, repl for all)", if t { "..4" } else { "" }), n: bytes_upto_count(2) + (CLASS.len() as u64).pow(3) + if t { (CLASS.len() as u64).pow(4) } else { 0 }, chunk: 4000 },
             Space { name: "compile-time-functions".into(), bound: "every defmac extension function (string? number? symbol? string->symbol symbol->string string->number number->string string-append string-length substring) applied inside a defmac body to every argument list of length 0..3 over boundary values (quick 7: a string, the empty string, 0, 1, 6, a symbol, nil; thorough 11: also 5, -1, a list, a 20-digit number); compiled as cl23 (thorough: and strict-cl21)".into(), n: ext_grid_n(t), chunk: 250 },
@@ -531,6 +557,7 @@ impl Plan {
     fn text_of(&self, sub: &str, i: u64) -> Vec<u8> {
         match sub {
             "seed-mutations" => self.seed_mutants[i as usize].clone(),
+            "seed-replacements" => self.seed_replacements[i as usize].clone(),
             "shipped-mutations" => self.shipped_mutants[i as usize].clone(),
             "include-file-variants" => self.include_variants[i as usize].clone(),
             "soup-all-entries" => soup_text(i),
@@ -568,6 +595,15 @@ impl Plan {
                 let base = strings_upto_count(SOUP.len(), k - 1);
                 let entries: &[Entry] = if self.thorough { LIGHT_ENTRIES } else { &[("assemble+disassemble", e_assemble), ("cldb", e_cldb), ("preprocess", e_preprocess)] };
                 run_case(st, &soup_text(base + i), entries, None, sub, true)
+            }
+            "seed-replacements" => {
+                let t = &self.seed_replacements[i as usize];
+                if self.thorough {
+                    let entries: Vec<Entry> = TEXT_ENTRIES.iter().filter(|e| e.0 != "usecheck" || !calls_a_function_twice(t)).cloned().collect();
+                    run_case(st, t, &entries, None, sub, true)
+                } else {
+                    run_case(st, t, &[("compile-library-entry", e_compile_lib), ("dependencies", e_dependencies), ("preprocess", e_preprocess)], None, sub, true)
+                }
             }
             "seed-mutations" | "shipped-mutations" => {
                 let t = if sub == "seed-mutations" { &self.seed_mutants[i as usize] } else { &self.shipped_mutants[i as usize] };
